@@ -483,6 +483,33 @@ package common
 //@     invariant hash: h == sha256(cat(seed, le64(i)))
 //@     invariant scan: prop_scan(spec.MAX_EFFECTIVE_BALANCE, registry, spec.SHUFFLE_ROUND_COUNT % 256, active, seed, 0) == prop_scan(spec.MAX_EFFECTIVE_BALANCE, registry, spec.SHUFFLE_ROUND_COUNT % 256, active, seed, 32 * i + j)
 
+// get_next_sync_committee_indices: scan the candidates 0, 1, 2, ... (as for the proposer: candidate k is
+// active[shuffled(k mod n)], its random byte is byte k mod 32 of hash(seed ++ uint64_le(k / 32))) and keep the accepted
+// ones, with repetition, until SYNC_COMMITTEE_SIZE are collected; the seed is get_seed(base_epoch, DOMAIN_SYNC_COMMITTEE).
+// sc_count(k): accepted candidates among the first k. The contract speaks of runs in which the committee fills up within
+// 2^40 candidates (otherwise the candidate counter's range would have to be argued about).
+//@ defrec sc_count(maxeb int, reg RegI, rounds int, active VIdxsT, seed Root32, k int) int = ite(k <= 0, 0, sc_count(maxeb, reg, rounds, active, seed, k - 1) + ite(prop_accept(maxeb, reg, rounds, active, seed, k - 1), 1, 0))
+//@ lemma sc_count_mono [C07, induct=q, manual]: forall q int, maxeb int, reg RegI, rounds int, active VIdxsT, seed Root32, p int :: {sc_count(maxeb, reg, rounds, active, seed, p), sc_count(maxeb, reg, rounds, active, seed, q)} p <= q ==> sc_count(maxeb, reg, rounds, active, seed, p) <= sc_count(maxeb, reg, rounds, active, seed, q)
+//@ lemma sc_count_bound [C07, induct=q, manual]: forall q int, maxeb int, reg RegI, rounds int, active VIdxsT, seed Root32 :: {sc_count(maxeb, reg, rounds, active, seed, q)} 0 <= sc_count(maxeb, reg, rounds, active, seed, q) && sc_count(maxeb, reg, rounds, active, seed, q) <= max(q, 0)
+//@ func ComputeSyncCommitteeIndices(spec, state, baseEpoch, active) (out, err)
+//@   property C07
+//@   nooverflow
+//@   use sc_count_mono, sc_count_bound, prop_accept_def
+//@   requires spec != nil && state != nil && spec.SLOTS_PER_EPOCH != 0 && spec.MIN_SEED_LOOKAHEAD + 1 <= spec.EPOCHS_PER_HISTORICAL_VECTOR && baseEpoch + spec.EPOCHS_PER_HISTORICAL_VECTOR < 18446744073709551616
+//@   requires len(active) <= 1099511627776 && spec.SYNC_COMMITTEE_SIZE < 1048576
+//@   requires balances: spec.MAX_EFFECTIVE_BALANCE < 72057594037927936 && (forall v ValI :: {v_eb(v)} v_eb(v) < 72057594037927936)
+//@   requires fills: sc_count(spec.MAX_EFFECTIVE_BALANCE, st_vals(state), spec.SHUFFLE_ROUND_COUNT % 256, active, seed_of(spec, st_mixes(state), baseEpoch, DOMAIN_SYNC_COMMITTEE), 1099511627776) >= spec.SYNC_COMMITTEE_SIZE
+//@   ensures empty: len(active) == 0 ==> err != nil
+//@   ensures size: err == nil ==> len(out) == spec.SYNC_COMMITTEE_SIZE
+//@   ensures members: err == nil ==> (forall p :: {sc_count(spec.MAX_EFFECTIVE_BALANCE, st_vals(state), spec.SHUFFLE_ROUND_COUNT % 256, active, seed_of(spec, st_mixes(state), baseEpoch, DOMAIN_SYNC_COMMITTEE), p)} 0 <= p && prop_accept(spec.MAX_EFFECTIVE_BALANCE, st_vals(state), spec.SHUFFLE_ROUND_COUNT % 256, active, seed_of(spec, st_mixes(state), baseEpoch, DOMAIN_SYNC_COMMITTEE), p) && sc_count(spec.MAX_EFFECTIVE_BALANCE, st_vals(state), spec.SHUFFLE_ROUND_COUNT % 256, active, seed_of(spec, st_mixes(state), baseEpoch, DOMAIN_SYNC_COMMITTEE), p) < spec.SYNC_COMMITTEE_SIZE ==> out[sc_count(spec.MAX_EFFECTIVE_BALANCE, st_vals(state), spec.SHUFFLE_ROUND_COUNT % 256, active, seed_of(spec, st_mixes(state), baseEpoch, DOMAIN_SYNC_COMMITTEE), p)] == prop_cand(spec.SHUFFLE_ROUND_COUNT % 256, active, seed_of(spec, st_mixes(state), baseEpoch, DOMAIN_SYNC_COMMITTEE), p))
+//@   loop 1
+//@     invariant mixes == st_mixes(state) && vals == st_vals(state) && periodSeed == seed_of(spec, st_mixes(state), baseEpoch, DOMAIN_SYNC_COMMITTEE) && len(active) > 0
+//@     invariant 0 <= i && i < 1099511627776
+//@     invariant count: len(syncCommitteeIndices) == sc_count(spec.MAX_EFFECTIVE_BALANCE, vals, spec.SHUFFLE_ROUND_COUNT % 256, active, periodSeed, i) && len(syncCommitteeIndices) <= i
+//@     invariant forall b :: 0 <= b && b < 32 ==> buf[b] == periodSeed[b]
+//@     invariant hash: i % 32 != 0 ==> h == sha256(cat(periodSeed, le64(i / 32)))
+//@     invariant forall p :: {sc_count(spec.MAX_EFFECTIVE_BALANCE, vals, spec.SHUFFLE_ROUND_COUNT % 256, active, periodSeed, p)} 0 <= p && p < i && prop_accept(spec.MAX_EFFECTIVE_BALANCE, vals, spec.SHUFFLE_ROUND_COUNT % 256, active, periodSeed, p) ==> sc_count(spec.MAX_EFFECTIVE_BALANCE, vals, spec.SHUFFLE_ROUND_COUNT % 256, active, periodSeed, p) < len(syncCommitteeIndices) && syncCommitteeIndices[sc_count(spec.MAX_EFFECTIVE_BALANCE, vals, spec.SHUFFLE_ROUND_COUNT % 256, active, periodSeed, p)] == prop_cand(spec.SHUFFLE_ROUND_COUNT % 256, active, periodSeed, p)
+
 // kzg_commitment_to_versioned_hash: VERSIONED_HASH_VERSION_KZG ++ sha256(commitment)[1:]
 //@ sort KZGT = KZGCommitment
 //@ sort Hash32T = Hash32
@@ -1213,10 +1240,43 @@ package common
 //@ ghost n_hist_update int
 // inactivity-score writes (altair on; the model is in the altair package)
 //@ ghost n_set_score int
+// eth1 data votes (assumed view model, versioned by the count of appends): length, how often a value occurs
+//@ sort VotesI = Eth1DataVotes
+//@ ufun st_votes_err(StateI) bool
+//@ ufun st_votes(StateI) VotesI
+//@ ghost n_vote_append int
+//@ ghost last_vote_append Eth1T
+//@ ufun votes_len_err(int, VotesI) bool
+//@ ufun votes_len(int, VotesI) int
+//@ ufun votes_count_err(int, VotesI, Eth1T) bool
+//@ ufun votes_count(int, VotesI, Eth1T) int
+//@ axiom votes_count_le_len [manual]: forall ver int, v VotesI, d Eth1T :: {votes_count(ver, v, d)} 0 <= votes_count(ver, v, d) && votes_count(ver, v, d) <= votes_len(ver, v)
 //@ func (s BeaconState) Eth1DataVotes() (r, err)
 //@   trusted
 //@   opt noalloc
-//@   ensures err == nil ==> r != nil
+//@   ensures (err != nil) == st_votes_err(s)
+//@   ensures err == nil ==> r != nil && r == st_votes(s)
+//@ func (v Eth1DataVotes) Length() (n, err)
+//@   trusted
+//@   opt noalloc
+//@   ensures (err != nil) == votes_len_err(n_vote_append, v)
+//@   ensures err == nil ==> n == votes_len(n_vote_append, v)
+//@ func (v Eth1DataVotes) Count(dat) (n, err)
+//@   trusted
+//@   opt noalloc
+//@   ensures (err != nil) == votes_count_err(n_vote_append, v, dat)
+//@   ensures err == nil ==> n == votes_count(n_vote_append, v, dat)
+//@ func (v Eth1DataVotes) Append(dat) err
+//@   trusted
+//@   assigns ghost(n_vote_append), ghost(last_vote_append)
+//@   ensures n_vote_append == old(n_vote_append) + 1 && last_vote_append == dat
+//@   ensures err == nil ==> votes_len(n_vote_append, v) == votes_len(old(n_vote_append), v) + 1 && votes_count(n_vote_append, v, dat) == votes_count(old(n_vote_append), v, dat) + 1
+//@ ghost n_set_eth1 int
+//@ ghost set_eth1 Eth1T
+//@ func (s BeaconState) SetEth1Data(d) err
+//@   trusted
+//@   assigns ghost(n_set_eth1), ghost(set_eth1)
+//@   ensures n_set_eth1 == old(n_set_eth1) + 1 && set_eth1 == d
 //@ func (v Eth1DataVotes) Reset() err
 //@   trusted
 //@   assigns ghost(n_eth1_reset)
@@ -1373,6 +1433,7 @@ package common
 //@   assigns ghost(n_set_nwi), ghost(set_nwi), ghost(n_set_nwvi), ghost(set_nwvi)
 //@   assigns ghost(n_aelig_write), ghost(n_set_act), ghost(last_set_act_v), ghost(last_set_act_val)
 //@   assigns ghost(n_set_root)
+//@   assigns ghost(n_vote_append), ghost(last_vote_append), ghost(n_set_eth1), ghost(set_eth1)
 //@   assigns ghost(n_eth1_reset), ghost(n_slash_reset), ghost(last_slash_reset), ghost(n_set_mix), ghost(last_set_mix_epoch), ghost(last_set_mix), ghost(n_hist_update)
 //@   assigns ghost(n_set_mix), ghost(last_set_mix_epoch), ghost(last_set_mix)
 //@   assigns ghost(n_set_lhdr), ghost(set_lhdr)
@@ -1400,6 +1461,7 @@ package common
 //@   assigns ghost(n_set_wcred), ghost(set_wcred_v), ghost(set_wcred_val)
 //@   assigns ghost(n_set_bal)
 //@   assigns ghost(n_set_nwi), ghost(set_nwi), ghost(n_set_nwvi), ghost(set_nwvi)
+//@   assigns ghost(n_vote_append), ghost(last_vote_append), ghost(n_set_eth1), ghost(set_eth1)
 //@   assigns ghost(n_set_mix), ghost(last_set_mix_epoch), ghost(last_set_mix)
 //@   assigns ghost(n_set_lhdr), ghost(set_lhdr)
 //@   assigns ghost(n_viter), ghost(viter_pos), ghost(viter_reg), ghost(n_val_write), ghost(n_wd_write), ghost(n_set_exit), ghost(set_exit_v), ghost(set_exit_val), ghost(n_set_wd), ghost(set_wd_v), ghost(set_wd_val)
